@@ -38,6 +38,8 @@ import sys, json, subprocess
 res = {}
 for l in open(sys.argv[1]):
     f = l.rstrip("\n").split("\t")
+    if len(f) < 3:
+        continue
     subj = subprocess.check_output(["git","-C","/repo","log","--format=%s","-1",f[0]],text=True).strip()
     res[f[0]] = {"property": f[1], "fix": subj, "result_of_quick_check_with_the_fix_reverted": f[2], "first_violation": f[3] if len(f) > 3 else ""}
 json.dump(res, open("/verif/seeded/REVERTS.json","w"), indent=1, sort_keys=True)
